@@ -519,13 +519,18 @@ def call_ext(interp, ext, node, args, kwargs, st):
                 tags = tags | frozenset(["world3"])
             if "unit" in a0.tags and name in ("array", "asarray", "copy", "asanyarray", "negative", "squeeze", "atleast_1d"):
                 tags = tags | frozenset(["unit"])
+            if name in ("array", "asarray", "copy", "asanyarray", "abs", "absolute", "negative"):
+                src_o = a0.elem if (a0.elem is not None and a0.kind in ("list", "gen")) else a0
+                tags = tags | frozenset(t_ for t_ in src_o.tags if isinstance(t_, tuple) and t_[0] == "order")
             if name in ("array", "asarray", "asanyarray") and "dtype" not in kwargs and len(args) < 2:
                 # the dtype is the caller's: integers stay an integer array (in-place float arithmetic then raises)
                 els = list(a0.items) if (a0.kind in ("list", "tuple") and a0.items is not None) else [a0]
                 if els and all(("raw-param" in e.tags) or (e.is_number_const() and isinstance(e.const, int)) for e in els) \
                         and any("raw-param" in e.tags for e in els):
                     tags = tags | frozenset(["maybe-int"])
-            elif name == "copy" and "maybe-int" in a0.tags:
+            elif name in ("copy", "atleast_1d", "atleast_2d", "squeeze", "ascontiguousarray") and "maybe-int" in a0.tags:
+                tags = tags | frozenset(["maybe-int"])
+            elif name in ("atleast_1d", "atleast_2d") and "raw-param" in a0.tags and "dtype" not in kwargs:
                 tags = tags | frozenset(["maybe-int"])
             return Val(dim=dim, kind=kind, al=al, deps=deps, pdeps=pdeps, born=born, tags=tags,
                        guardp=a0.guardp if name in ("asarray", "array", "copy", "squeeze", "atleast_1d") else frozenset(),
@@ -628,6 +633,8 @@ def call_ext(interp, ext, node, args, kwargs, st):
                 tags = frozenset([("linmap-of", tuple(sorted(a0.al)), b.tags)])
             if name == "cross":
                 tags = frozenset(["cross"])
+            if a0 is not None and "maybe-int" in a0.tags and "maybe-int" in b.tags:
+                tags = tags | {"maybe-int"}      # integer (x) integer stays integer
             sym = a0.sym * b.sym if (name in ("multiply", "dot") and a0 is not None and a0.sym is not None and b.sym is not None) else None
             if (a0 is not None and "batch" in a0.tags) or "batch" in b.tags:
                 tags = tags | {"batch"}
